@@ -5,6 +5,7 @@ row-sets; every row carries a unique id so a resurrected, lost or duplicated row
 After every step SELECT * must equal the model; DELETE must report the model's count; a
 compaction pass (confirmed by the compactor's own trace event) must not change any result; a
 table with a primary key must come back in key order."""
+import os
 import random
 
 from common import Report, Violation, parallel_map, h, run_sentinels
@@ -205,6 +206,9 @@ def run(tier, seed):
     rep.floor("rows deleted", tot["deleted_rows"], n)
     rep.assumptions = ["compaction passes are driven by the engine's own 1 s timer on a paused tokio clock (one pass per virtual second)",
                        "key-order of a primary-key table is observed through SELECT * (the scan executor requests the ordered merge scan)"]
+    if tier == "thorough" and not os.environ.get("VERIF_OVERLAY"):
+        import sanitize
+        sanitize.overlay(rep, "asan", timeout=5400)
     return rep.finish()
 
 
